@@ -130,6 +130,15 @@ MISSED_FIRST = {
  "C18h-1": "needs mdicons.ParseFile over several documents whose path elements carry optional attributes at the same positions; C18 got a ParseFile pipeline over shared documents on disk, each result compared with the graphic its document spells",
  "C06h-1": "needs a target of 4096 pixels or more in height and an arc of more than half a turn; a tenth of C06's targets are now 1024..16384 pixels in each direction",
  "C07h-2": "needs a directly driven Renderer that is given its rasterizer after Reset (C06 and C19 caught it); a quarter of C07's direct pipelines now do that",
+ "C06i-1": "needs, earlier in the same path, an arc on the very same ellipse whose radii are too small for its chord; an eighth of C06's direct cases now start with such an arc and a line back",
+ "C06i-2": "needs a shallow arc whose radii are thousands to millions of times its chord (the relative on-ellipse tolerance says nothing there); C06 got a shallow family judged in pixels: at least |r-1|*min(radii)*min(scales) px off, tolerance 0.02 px plus float32 rounding of the pixel coordinates",
+ "C10i-1": "needs the zero value of the palette array; the shared palette generator now returns uniform palettes (all transparent, all white, ...) one time in twelve",
+ "C15i-1": "needs an offset within 1e-9 outside [0,1]; C15's exact matrices now include slopes of 2^-30..2^-45 per pixel around exactly 0 or 1",
+ "C18i-1": "needs a document with seven distinct opacities (an error on the unchanged tree, the same every time); C18's shared documents now include one",
+ "C18i-2": "needs mdicons.Statistics.Add on a shared summary whose lists have spare capacity; every ParseFile pipeline of C18 now accumulates the shared summary and its own, and the shared lists are hashed up to their capacity",
+ "C20i-1": "needs an svg root whose width/height differ from the configured size; C20's documents now carry no, equal or other width/height attributes",
+ "C05i-1": "needs a DecodeOption written by the caller that replaces the viewBox; C14's caller-written options now sometimes do, and the viewBox given to Reset must be the Metadata's after all options",
+ "C02i-1": "needs one path holding a single run of millions of H/h/V/v operations decoded into an Encoder (quadratic copying); C02's huge inputs now include such runs, decoded into an Encoder and a Renderer under the per-case CPU limit",
  "C20-2": "SetTransform was called once with literals; C20 now configures the generator twice from a caller-held slice and checks that the slice is unchanged",
 }
 
